@@ -1071,16 +1071,17 @@ impl Visitor<Diagnostic> for LibraryRenderer {
         self.newline();
 
         self.indent();
+        // The global variables come before the tasks and programs
+        for var in node.global_vars.iter() {
+            self.visit_var_decl(var)?;
+        }
+
         for task in node.tasks.iter() {
             self.visit_task_configuration(task)?;
         }
 
         for program in node.programs.iter() {
             self.visit_program_configuration(program)?;
-        }
-
-        for var in node.global_vars.iter() {
-            self.visit_var_decl(var)?;
         }
 
         self.outdent();
@@ -1133,6 +1134,9 @@ impl Visitor<Diagnostic> for LibraryRenderer {
         self.newline();
 
         self.indent();
+        for var in node.global_var.iter() {
+            self.visit_var_decl(var)?;
+        }
         for res in node.resource_decl.iter() {
             self.visit_resource_declaration(res)?;
         }
